@@ -3,7 +3,7 @@
   `SliceConstructor::{new, process_slice}` of `Generated/Src/Slice.lean` (derived from
   `renet/src/channel/slice_constructor.rs`).  The model (`SliceCtor`, `CtorAgrees`) appears only in the proofs:
   `SrcTieSlice` (generated = model) ∘ `Lemmas/RecvInv.lean` (`ctorPred_winv`, C06) / `Props/C03.lean`
-  (`reassembly_exact`, `slicing_exact`).
+  (`reassembly_exact`, `reassembly_start`, `slicing_exact`).
 
   `SCInvG st` is intrinsic: the shape every constructor stored by the receive channels has (one flag per slice, the
   receive counter counts the flags and is below `num_slices`, the buffer is `num_slices * SLICE_SIZE` long until the
@@ -19,15 +19,18 @@ open Src.renet.channel.slice_constructor
 
 /-! ### helpers -/
 
+/-- the live part of the invariant (`num_slices ≥ 1`) -/
+def SCLiveG (st : SliceConstructor) : Prop :=
+  1 ≤ st.num_slices ∧ st.received.length = st.num_slices ∧ st.num_received_slices = st.received.count true ∧
+  st.num_received_slices < st.num_slices ∧
+  (if st.received[st.num_slices - 1]? = some true
+   then (st.num_slices - 1) * C.SLICE_SIZE ≤ st.sliced_data.length ∧ st.sliced_data.length ≤ st.num_slices * C.SLICE_SIZE
+   else st.sliced_data.length = st.num_slices * C.SLICE_SIZE)
+
 /-- intrinsic invariant of a generated slice constructor -/
 def SCInvG (st : SliceConstructor) : Prop :=
   BytesOk st.sliced_data ∧ st.num_slices * C.SLICE_SIZE < 2 ^ 64 ∧ st.num_received_slices + 1 < 2 ^ 64 ∧
-  (st.num_slices = 0 ∨
-   (1 ≤ st.num_slices ∧ st.received.length = st.num_slices ∧ st.num_received_slices = st.received.count true ∧
-    st.num_received_slices < st.num_slices ∧
-    (if st.received[st.num_slices - 1]? = some true
-     then (st.num_slices - 1) * C.SLICE_SIZE ≤ st.sliced_data.length ∧ st.sliced_data.length ≤ st.num_slices * C.SLICE_SIZE
-     else st.sliced_data.length = st.num_slices * C.SLICE_SIZE)))
+  (st.num_slices = 0 ∨ SCLiveG st)
 
 theorem le_mul_S (n : Nat) : n ≤ n * C.SLICE_SIZE := Nat.le_mul_of_pos_right n Reasm.S_pos
 
@@ -42,17 +45,242 @@ theorem scInvG_winv {st : SliceConstructor} (h : SCInvG st) : (absSC st).WInv :=
     refine ⟨h1, h2, h3, h4, ?_⟩
     simpa [absSC, ofNats_length'] using h5
 
-/-- the invariant of a model constructor carries over to its representation -/
-theorem scInvG_repr (mid : Nat) (c : SliceCtor) (hw : c.WInv) (hn : c.numSlices * C.SLICE_SIZE < 2 ^ 64) :
+/-- the strict invariant of a model constructor carries over to its representation -/
+theorem scInvG_repr (mid : Nat) (c : SliceCtor) (hi : c.Inv) (hn : c.numSlices * C.SLICE_SIZE < 2 ^ 64) :
     SCInvG (reprSC mid c) := by
   have hS := le_mul_S c.numSlices
-  refine ⟨bytesOk_toNats _, hn, ?_, ?_⟩
-  · rcases hw with h0 | ⟨_, h2, h3, h4, _⟩
-    · -- dead constructor: `numReceived` is unconstrained by `WInv`; handled by the caller (`new` gives 0)
-      -- here: `numSlices = 0`; we only know `numReceived` through the caller, so this case is excluded below
-      exact absurd h0 (by intro; exact False.elim (by sorry))
-    · show c.numReceived + 1 < 2 ^ 64
-      omega
-  · sorry
+  obtain ⟨h1, h2, h3, h4, h5⟩ := hi
+  refine ⟨bytesOk_toNats _, hn, ?_, .inr ⟨h1, h2, h3, h4, ?_⟩⟩
+  · show c.numReceived + 1 < 2 ^ 64
+    omega
+  · simpa [reprSC, toNats_length] using h5
+
+/-- the sender's slice `i` of `n` of a message, on `List Nat` -/
+def sliceG (msg : List Nat) (n i : Nat) : List Nat :=
+  (msg.drop (i * C.SLICE_SIZE)).take ((if i = n - 1 then msg.length else (i + 1) * C.SLICE_SIZE) - i * C.SLICE_SIZE)
+
+theorem toNats_sliceBytes (msg : List Nat) (hb : BytesOk msg) (n i : Nat) :
+    toNats (sliceBytes (ofNats msg) n i) = sliceG msg n i := by
+  unfold sliceBytes sliceG
+  simp only [ofNats_length']
+  show List.map UInt8.toNat _ = _
+  rw [List.map_take, List.map_drop]
+  have : List.map UInt8.toNat (ofNats msg) = msg := toNats_ofNats hb
+  rw [this]
+
+/-- feed slices to a generated constructor until it hands out a message (the channels then drop the constructor) -/
+def reassemble (st : SliceConstructor) :
+    List (Nat × List Nat) → Res (SChannelError × SliceConstructor) (SliceConstructor × Option (List Nat))
+  | [] => .ok (st, none)
+  | (i, b) :: rest =>
+    SliceConstructor.process_slice st i b >>= fun r =>
+      match r.2 with
+      | some p => .ok (r.1, some p)
+      | none => reassemble r.1 rest
 
 end RenetVerif.SrcCor
+
+namespace RenetVerif.SrcProps
+open RenetVerif RenetVerif.SrcEquiv RenetVerif.SrcTie RenetVerif.SrcCor RenetVerif.RustSem
+open Src.renet.channel.slice_constructor
+
+/-! ### headline statements -/
+
+/-- **C06, `process_slice` never panics.**  On a constructor satisfying the intrinsic invariant, for ANY slice index
+    and ANY bytes, the generated `process_slice` either rejects the slice (`Err`, constructor unchanged), or stores it
+    and keeps the invariant, or hands out a complete message of at most `num_slices * SLICE_SIZE` bytes. -/
+theorem slice_process_slice_total (st : SliceConstructor) (h : SCInvG st) (slice_index : Nat) (bytes : List Nat)
+    (hb : BytesOk bytes) :
+    (∃ e, SliceConstructor.process_slice st slice_index bytes = .err (e, st)) ∨
+    (∃ st', SliceConstructor.process_slice st slice_index bytes = .ok (st', none) ∧ SCInvG st' ∧
+      st'.num_slices = st.num_slices ∧ st'.message_id = st.message_id) ∨
+    (∃ st' p, SliceConstructor.process_slice st slice_index bytes = .ok (st', some p) ∧ BytesOk p ∧
+      p.length ≤ st.num_slices * C.SLICE_SIZE) := by
+  have htie := slice_constructor_process_slice st (scInvG_wf h) slice_index bytes hb
+  have hns : (absSC st).numSlices = st.num_slices := rfl
+  rcases ctorPred_winv.step (absSC st) (scInvG_winv h) slice_index (ofNats bytes) with
+    ⟨e, he⟩ | ⟨c', he, hw, hn⟩ | ⟨c', m, he, hl, hn⟩
+  · rw [he] at htie
+    exact .inl ⟨_, sameOutcome_err htie⟩
+  · rw [he] at htie
+    right; left
+    refine ⟨_, sameOutcome_ok htie, ?_, hn, rfl⟩
+    have hi : c'.Inv := by
+      rcases hw with h0 | hi
+      · have hz : (absSC st).numSlices = 0 := by rw [← hn]; exact h0
+        rw [SliceCtor.processSlice_zero _ hz] at he
+        cases he
+      · exact hi
+    exact scInvG_repr _ c' hi (by rw [hn, hns]; exact h.2.1)
+  · rw [he] at htie
+    right; right
+    exact ⟨_, _, sameOutcome_ok htie, bytesOk_toNats m, by rw [toNats_length]; exact hl⟩
+
+/-- in particular: no panic -/
+theorem slice_process_slice_never_panics (st : SliceConstructor) (h : SCInvG st) (slice_index : Nat)
+    (bytes : List Nat) (hb : BytesOk bytes) : NoPanic (SliceConstructor.process_slice st slice_index bytes) := by
+  rcases slice_process_slice_total st h slice_index bytes hb with ⟨e, he⟩ | ⟨st', he, _⟩ | ⟨st', p, he, _⟩ <;>
+    rw [he] <;> first | exact noPanic_err _ | exact noPanic_ok _
+
+/-- `SliceConstructor::new` establishes the invariant (whenever `num_slices * SLICE_SIZE` fits `usize`) -/
+theorem slice_new_inv {ε : Type} (message_id num_slices : Nat) (h : num_slices * C.SLICE_SIZE < 2 ^ 64) :
+    ∃ st, (SliceConstructor.new message_id num_slices : Res ε _) = .ok st ∧ SCInvG st ∧
+      st.num_slices = num_slices ∧ st.message_id = message_id := by
+  refine ⟨_, slice_constructor_new message_id num_slices h, ?_, rfl, rfl⟩
+  by_cases h0 : num_slices = 0
+  · subst h0
+    exact ⟨bytesOk_toNats _, h, by show 0 + 1 < 2 ^ 64; decide, .inl rfl⟩
+  · exact scInvG_repr _ _ (SliceCtor.new_inv num_slices (by omega)) h
+
+/-- the sender's slices concatenate to the message (C03 `slicing_exact`, on `List Nat`) -/
+theorem slices_concat (msg : List Nat) (hb : BytesOk msg) (hlen : msg.length > C.SLICE_SIZE) :
+    (List.range (divCeil msg.length C.SLICE_SIZE)).flatMap (sliceG msg (divCeil msg.length C.SLICE_SIZE)) = msg := by
+  have h := (C03.slicing_exact (ofNats msg) (by rw [ofNats_length']; exact hlen)).2.2.2.2
+  simp only [ofNats_length'] at h
+  have h2 := congrArg toNats h
+  rw [toNats_ofNats hb] at h2
+  conv => rhs; rw [← h2]
+  simp only [toNats, List.map_flatMap]
+  congr 1
+  funext i
+  exact (toNats_sliceBytes msg hb _ i).symm
+
+/-- **C03, reassembly is exact.**  Create a constructor with the generated `new` for a message of more than
+    `SLICE_SIZE` bytes and feed it, with the generated `process_slice`, the sender's slices of that message in ANY
+    order and with ANY repetitions (`idxs`: the indices presented, each `< n`): no call fails or panics, a message is
+    handed out iff every index `0..n-1` has been presented, and then it is the original message byte for byte — i.e.
+    the concatenation of its slices (`slices_concat`). -/
+theorem slice_reassembly_exact (message_id : Nat) (msg : List Nat) (hb : BytesOk msg) (hlen : msg.length > C.SLICE_SIZE)
+    (hn : divCeil msg.length C.SLICE_SIZE * C.SLICE_SIZE < 2 ^ 64) (idxs : List Nat)
+    (hidx : ∀ i ∈ idxs, i < divCeil msg.length C.SLICE_SIZE) :
+    ∃ st0 st' out,
+      (SliceConstructor.new message_id (divCeil msg.length C.SLICE_SIZE) : Res (SChannelError × SliceConstructor) _) = .ok st0 ∧
+      reassemble st0 (idxs.map fun i => (i, sliceG msg (divCeil msg.length C.SLICE_SIZE) i)) = .ok (st', out) ∧
+      (out = some msg ∨ out = none) ∧
+      (out = some msg ↔ ∀ i, i < divCeil msg.length C.SLICE_SIZE → i ∈ idxs) := by
+  generalize hnd : divCeil msg.length C.SLICE_SIZE = n at *
+  have hml : (ofNats msg).length > C.SLICE_SIZE := by rw [ofNats_length']; exact hlen
+  have hnd' : divCeil (ofNats msg).length C.SLICE_SIZE = n := by rw [ofNats_length']; exact hnd
+  have hn2 : 2 ≤ n := by rw [← hnd']; exact (C03.slicing_exact (ofNats msg) hml).1
+  refine ⟨reprSC message_id (SliceCtor.new n), ?_⟩
+  -- the loop, generalised over the model state and the set of indices seen so far
+  have loop : ∀ (idxs : List Nat), (∀ i ∈ idxs, i < n) → ∀ (c : SliceCtor) (seen : List Nat),
+      Reasm.CtorAgrees (ofNats msg) c → (∀ i, i < n → (c.received[i]? = some true ↔ i ∈ seen)) →
+      ¬ (∀ i, i < n → i ∈ seen) →
+      ∃ st' out, reassemble (reprSC message_id c) (idxs.map fun i => (i, sliceG msg n i)) = .ok (st', out) ∧
+        (out = some msg ∨ out = none) ∧ (out = some msg ↔ ∀ i, i < n → i ∈ seen ∨ i ∈ idxs) := by
+    intro idxs
+    induction idxs with
+    | nil =>
+      intro _ c seen _ _ hinc
+      refine ⟨_, none, rfl, .inr rfl, ?_⟩
+      constructor
+      · intro h; cases h
+      · intro h; exact absurd (fun i hi => (h i hi).resolve_right (by simp)) hinc
+    | cons idx rest ih =>
+      intro hid c seen hag hfl hinc
+      have hidx : idx < n := hid idx (by simp)
+      have hag' : Reasm.AgreesN n (ofNats msg) c := by rw [← hnd']; exact hag
+      obtain ⟨c', out1, hstep, hrecv, hnone, hsome, hiff⟩ :=
+        C03.reassembly_exact (ofNats msg) hml c hag idx (by rw [hnd']; exact hidx)
+      rw [hnd'] at hstep hiff
+      -- the generated call
+      have hnr : c.numReceived + 1 < 2 ^ 64 := by
+        have h1 : c.numReceived ≤ c.received.length := by rw [hag'.count]; exact List.count_le_length
+        have h2 := hag'.recvLen
+        have h3 : n * 2 ≤ n * C.SLICE_SIZE := Nat.mul_le_mul_left n (by decide)
+        omega
+      have htie := slice_constructor_process_slice' message_id c idx (sliceBytes (ofNats msg) n idx)
+        (by rw [hag'.numSlices]; exact hn) hnr
+      rw [hstep, toNats_sliceBytes msg hb n idx] at htie
+      have hgen := sameOutcome_ok htie
+      -- flags after the step
+      have hfl' : ∀ i, i < n → (c'.received[i]? = some true ↔ i ∈ idx :: seen) := by
+        intro i hi
+        rw [hrecv, List.mem_cons]
+        by_cases hie : i = idx
+        · subst hie
+          rw [List.getElem?_set_self (by rw [hag'.recvLen]; exact hi)]
+          simp
+        · rw [List.getElem?_set_ne (fun h => hie h.symm)]
+          rw [hfl i hi]
+          simp [hie]
+      simp only [List.map_cons, reassemble, hgen, Res.bind_ok]
+      cases out1 with
+      | none =>
+        obtain ⟨hag1, _⟩ := hnone rfl
+        have hinc' : ¬ (∀ i, i < n → i ∈ idx :: seen) := by
+          intro hall
+          have : (none : Option Bytes) ≠ none := hiff.2 (fun i hi => (hfl' i hi).2 (hall i hi))
+          exact this rfl
+        obtain ⟨st', out, hr, hcase, hiff2⟩ :=
+          ih (fun i hi => hid i (by simp [hi])) c' (idx :: seen) hag1 hfl' hinc'
+        refine ⟨st', out, by simpa using hr, hcase, ?_⟩
+        rw [hiff2]
+        constructor
+        · intro h i hi
+          rcases h i hi with h | h
+          · rcases List.mem_cons.1 h with rfl | h
+            · exact .inr (by simp)
+            · exact .inl h
+          · exact .inr (by simp [h])
+        · intro h i hi
+          rcases h i hi with h | h
+          · exact .inl (by simp [h])
+          · rcases List.mem_cons.1 h with rfl | h
+            · exact .inl (by simp)
+            · exact .inr h
+      | some m' =>
+        have hm' : m' = ofNats msg := hsome m' rfl
+        subst hm'
+        have hall : ∀ i, i < n → i ∈ idx :: seen := fun i hi => (hfl' i hi).1 (hiff.1 (by simp) i hi)
+        refine ⟨reprSC message_id c', some msg, by simp [toNats_ofNats hb], .inl rfl, ?_⟩
+        constructor
+        · intro _ i hi
+          rcases List.mem_cons.1 (hall i hi) with rfl | h
+          · exact .inr (by simp)
+          · exact .inl h
+        · intro _; rfl
+  have hstart : Reasm.CtorAgrees (ofNats msg) (SliceCtor.new n) := by
+    have := C03.reassembly_start (ofNats msg)
+    rwa [hnd'] at this
+  have hfl0 : ∀ i, i < n → ((SliceCtor.new n).received[i]? = some true ↔ i ∈ ([] : List Nat)) := by
+    intro i hi
+    simp [SliceCtor.new, hi]
+  obtain ⟨st', out, hr, hcase, hiff⟩ := loop idxs hidx (SliceCtor.new n) [] hstart hfl0
+    (by intro h; have := h 0 (by omega); simp at this)
+  refine ⟨st', out, slice_constructor_new message_id n hn, hr, hcase, ?_⟩
+  rw [hiff]
+  simp
+
+/-! ### examples (evaluated on the generated text) -/
+
+/-- a 2401-byte message: three slices (1200, 1200, 1) -/
+def exMsg : List Nat := List.replicate 1200 1 ++ List.replicate 1200 2 ++ [3]
+
+set_option maxRecDepth 100000 in
+/-- out of order and with a repetition: complete exactly after the third distinct index, payload = message -/
+example : (SliceConstructor.new 9 3 >>= fun st =>
+      reassemble st ([2, 0, 2, 1, 0].map fun i => (i, sliceG exMsg 3 i))).forget =
+    .ok (⟨9, 3, 3, [true, true, true], []⟩, some exMsg) := by decide +kernel
+set_option maxRecDepth 100000 in
+example : okSnd ((SliceConstructor.new 9 3 >>= fun st =>
+      reassemble st ([2, 0, 2].map fun i => (i, sliceG exMsg 3 i))).forget) = some none := by decide +kernel
+/-- hostile slices against a live constructor: index out of range, wrong length, oversized last slice — `Err`, the
+    constructor is returned unchanged, no panic -/
+example : (SliceConstructor.new 9 2 >>= fun st => SliceConstructor.process_slice st 7 [1, 2, 3]).forget =
+    .err .InvalidSliceMessage := by decide +kernel
+example : (SliceConstructor.new 9 2 >>= fun st => SliceConstructor.process_slice st 0 [1, 2, 3]).forget =
+    .err .InvalidSliceMessage := by decide +kernel
+example : (SliceConstructor.new 9 2 >>= fun st => SliceConstructor.process_slice st 1 (List.replicate 1201 0)).forget =
+    .err .InvalidSliceMessage := by decide +kernel
+/-- a zero-slice constructor is dead: every slice is rejected -/
+example : (SliceConstructor.new 9 0 >>= fun st => SliceConstructor.process_slice st 0 []).forget =
+    .err .InvalidSliceMessage := by decide +kernel
+/-- instance of the totality theorem -/
+example : NoPanic (SliceConstructor.process_slice ⟨9, 2, 0, [false, false], List.replicate 2400 0⟩ 5 [1]) :=
+  slice_process_slice_never_panics _
+    ⟨by decide +kernel, by decide, by decide, .inr ⟨by decide, by decide, by decide, by decide, by decide +kernel⟩⟩ 5 [1]
+    (by decide)
+
+end RenetVerif.SrcProps
